@@ -180,7 +180,9 @@ mutual
       | .error e => .error e
       | .ok v => match resolveList fns dag data xs with
         | .error e => .error e
-        | .ok vs => .ok (v :: vs)
+        | .ok vs => match x, v with
+          | .optional _ _ _ _, .null => .ok vs    -- an absent optional ITEM is left out (`isOptional && newValue == nil`)
+          | _, _ => .ok (v :: vs)
   def resolveKvs (fns : Fns) (dag : Graph String) (data : Val) :
       List (String × InVal) → Except ResolveErr (List (String × Val))
     | [] => .ok []
